@@ -199,6 +199,10 @@ class HostRun:
     if self.mode == "trace":
       return
     vals = [self.to_arg(a, t) for a, (l, t) in zip(args, specs)]
+    import os, time
+    _t0 = time.time()
+    if os.environ.get("WSYM_VERBOSE"):
+      print(f"[host] launch {kernel.key} dim={d}", flush=True)
     for tid in itertools.product(*[range(n) for n in d]):
       self.nthreads += 1
       if self.nthreads > self.max_threads:
@@ -262,6 +266,9 @@ class HostRun:
       for k in range(dc.ncomp):
         for i in range(n):
           dc.d[k][dest_offset + i] = sc.d[k][src_offset + i]
+      if getattr(dc, "wmask", None) is not None:
+        for i in range(n):
+          dc.wmask[dest_offset + i] = True
       hr.events.append(Event("copy", info=(dest.name_, getattr(src, "name_", sc.name))))
 
     def full(shape=None, value=0, dtype=float, **kw):
@@ -273,6 +280,39 @@ class HostRun:
       if hr.mode != "trace":
         raise Unsupported(f"tile kernel {kernel.key} in exec mode")
 
+    def _cond_value(condition):
+      if isinstance(condition, SymArr):
+        v = condition.ref.cell.d[0][0]
+        if core.is_sym(v):
+          v = z3.simplify(v)
+          if z3.is_int_value(v):
+            return v.as_long()
+          raise Unsupported("host control flow (capture_while/capture_if) on a symbolic condition")
+        return int(v)
+      return int(condition.numpy()[0])
+
+    def capture_while(condition, while_body, **kwargs):
+      n = 0
+      while _cond_value(condition) != 0:
+        while_body(**kwargs)
+        n += 1
+        if n > 1000:
+          raise Unsupported("capture_while does not terminate")
+
+    def capture_if(condition, on_true=None, on_false=None, **kwargs):
+      if _cond_value(condition) != 0:
+        if on_true is not None:
+          on_true(**kwargs)
+      elif on_false is not None:
+        on_false(**kwargs)
+
+    for k_ in ("capture_while", "capture_if"):
+      if hasattr(wp, k_):
+        self.saved[k_] = getattr(wp, k_)
+    if hasattr(wp, "capture_while"):
+      wp.capture_while = capture_while
+    if hasattr(wp, "capture_if"):
+      wp.capture_if = capture_if
     wp.launch = self.launch
     wp.zeros, wp.empty, wp.zeros_like, wp.empty_like, wp.clone, wp.copy, wp.full = zeros, empty, zeros_like, empty_like, clone, copy, full
     if "launch_tiled" in self.saved:
